@@ -1201,4 +1201,4 @@ def time_stub(e, c, a):
     return Opaque("time")
 
 
-from . import models_iter, models_coll, models_io      # noqa: E402,F401  (register more models)
+from . import models_iter, models_coll, models_io, sched      # noqa: E402,F401  (register more models)
